@@ -31,6 +31,8 @@ Definition kop (x : ikind) : aop :=
 Definition vecof (x : ikind) (v : Z) : vec :=
   match x with KHist b => hvec b v | KExpo u => evec u v | _ => [v] end.
 
+Definition is_delta (t : temporality) : bool := match t with Delta => true | Cumulative => false end.
+
 Definition cfg_of (x : ikind) (t : temporality) : aggcfg :=
   {| a_op := kop x; a_pre := is_async x; a_temp := t |}.
 
@@ -57,7 +59,8 @@ Definition sstep (x : ikind) (i : inst) (t : temporality) (tm : nat -> N) (s : s
       else ({| s_regs := s_regs s; s_agg := measure (cfg_of x t) k (vecof x v) (s_agg s); s_n := s_n s |}, [])
   | Register _ _ | Unregister _ =>
       ({| s_regs := reg_step (s_regs s) o; s_agg := s_agg s; s_n := s_n s |}, [])
-  | Collect script _ =>
+  | Collect w script _ =>
+      if negb (includes w (is_delta t)) then (s, []) else
       (* produce: callbacks first (their errors are joined and returned with the data), then the
          aggregation is computed regardless *)
       let a1 := if is_async x
@@ -93,7 +96,7 @@ Definition model (kinds : list ikind) (t0 : N) (tm : nat -> N) (h : list op) : l
     callback is silent) *)
 Definition erase_cb (c : cbid) (h : list op) : list op :=
   map (fun o => match o with
-                | Collect s f => Collect (filter (fun a => negb (at_cb a =? c)%N) s) f
+                | Collect w s f => Collect w (filter (fun a => negb (at_cb a =? c)%N) s) f
                 | _ => o
                 end) h.
 Definition registers (c : cbid) (o : op) : bool :=
